@@ -280,3 +280,39 @@ def reviewed_identifiers(path=SPEC):
                 ids.update(u[3])
         _REVIEWED_IDS = ids
     return _REVIEWED_IDS
+
+
+def substitutions(trees, path=SPEC):
+    """[(module, unit name, old identifier, new identifier)]: units (functions / methods) of the analysed tree that have the
+    skeleton of the reviewed unit of the same name in the same module, where one identifier that exists in both trees was
+    replaced by another identifier that exists in both trees (so it is not a rename: another entity is used at that place)"""
+    if not os.path.exists(path):
+        return []
+    spec = json.load(open(path))
+    old_units = [tuple(u) for u in spec['units']]
+    old_ids = set()
+    for u in old_units:
+        old_ids.update(u[3])
+    new_units = []
+    for m in sorted(trees):
+        new_units += units_of(trees[m], m)
+    new_ids = set()
+    for u in new_units:
+        new_ids.update(u[3])
+    old_idx = {}
+    for m, k, h, ids, defs in old_units:
+        if k in ('func', 'method') and ids:
+            old_idx.setdefault((m, k, h, ids[0]), []).append(ids)
+    out = []
+    for m, k, h, ids, defs in new_units:
+        if k not in ('func', 'method') or not ids:
+            continue
+        cands = old_idx.get((m, k, h, ids[0]))
+        if not cands or len(cands) != 1 or len(cands[0]) != len(ids):
+            continue
+        seen = set()
+        for x, y in zip(cands[0], ids):
+            if x != y and x in new_ids and y in old_ids and (x, y) not in seen:
+                seen.add((x, y))
+                out.append((m, ids[0], x, y))
+    return out
